@@ -243,4 +243,69 @@ theorem loop_force_nosticky (c : Cfg) (hb : PosBeh c.beh) (endT : Int) :
       simp only [h2, decide_false, Bool.and_false] at h
       exact ih _ _ h hinv' hlt'
 
+/-- one front in the zero-length forced pass (`gt = endT`): whatever it contributes is `0`, and after settling
+and clearing it stands at the global time with nothing pending -/
+theorem poll_at_end (beh : Beh) (hb : PosBeh beh) (gt : Int) (v : Store) (p : Pid) (f : Front)
+    (hf : FrontOK gt f) (hnp : f.pending = none) :
+    let o := poll beh gt gt true v p f
+    (∀ c, o.contrib = some c → c = 0) ∧
+    (o.contrib = none → (settle gt o).time = gt ∧ (settle gt o).pending = none ∧ FrontOK gt (settle gt o)) ∧
+    (clearDue gt (settle gt o)).time = gt ∧ (clearDue gt (settle gt o)).pending = none ∧
+    FrontOK gt (clearDue gt (settle gt o)) := by
+  have hpos := hb p f.nTs v
+  unfold poll pollWith settle clearDue emptyFront
+  unfold FrontOK at hf ⊢
+  cases hs : f.sticky <;> simp only [hnp, hs] at hf ⊢ <;> grind
+
+/-- the zero-length forced pass as a whole: the clock stays, every front ends at the clock, idle -/
+theorem iter_at_end (c : Cfg) (hb : PosBeh c.beh) (s : St) (hinv : Inv s) (hnp : NoPending s) :
+    (iter c s.gt true s).gt = s.gt ∧
+    ∀ pf ∈ (iter c s.gt true s).fronts, pf.2.time = s.gt ∧ pf.2.pending = none ∧ FrontOK s.gt pf.2 := by
+  unfold iter
+  dsimp only
+  generalize hos : s.fronts.map (fun pf => (pf.1, poll c.beh s.gt s.gt true s.store pf.1 pf.2)) = os
+  have hmem : ∀ po ∈ os, ∃ f, (po.1, f) ∈ s.fronts ∧ po.2 = poll c.beh s.gt s.gt true s.store po.1 f := by
+    intro po hpo; subst hos; simp at hpo; obtain ⟨a, b, hab, rfl⟩ := hpo; exact ⟨b, hab, rfl⟩
+  have hfront : ∀ po ∈ os,
+      (∀ c', po.2.contrib = some c' → c' = 0) ∧
+      (po.2.contrib = none → (settle s.gt po.2).time = s.gt ∧ (settle s.gt po.2).pending = none ∧
+        FrontOK s.gt (settle s.gt po.2)) ∧
+      (clearDue s.gt (settle s.gt po.2)).time = s.gt ∧ (clearDue s.gt (settle s.gt po.2)).pending = none ∧
+      FrontOK s.gt (clearDue s.gt (settle s.gt po.2)) := by
+    intro po hpo
+    obtain ⟨f, hf, hpo'⟩ := hmem po hpo
+    rw [hpo']
+    exact poll_at_end c.beh hb s.gt s.store po.1 f (hinv _ hf) (hnp _ hf)
+  cases hfs : fullStep os with
+  | none =>
+    simp only
+    have ⟨_, hnone⟩ := foldl_minOpt_none os none hfs
+    have hne : nextEvent s.gt s.gt (os.map (fun po => (po.1, po.2.front))) = s.gt := by
+      apply nextEvent_eq_end
+      intro pf hpf
+      simp at hpf
+      obtain ⟨a, b, hab, rfl⟩ := hpf
+      obtain ⟨f, hf, hbb⟩ := hmem (a, b) hab
+      simp only at hbb; subst hbb
+      exact poll_contrib_none_time _ _ _ _ _ _ _ (hnone _ hab)
+    rw [hne]
+    refine ⟨rfl, ?_⟩
+    intro pf hpf
+    simp at hpf
+    obtain ⟨a, b, hab, rfl⟩ := hpf
+    exact (hfront (a, b) hab).2.1 (hnone _ hab)
+  | some d =>
+    have hd : d = 0 := by
+      rcases foldl_minOpt_mem os none d hfs with h | ⟨o, ho, hc⟩
+      · simp at h
+      · exact (hfront o ho).1 d hc
+    subst hd
+    simp only [Int.add_zero, Int.le_refl, ite_true]
+    refine ⟨by simp, ?_⟩
+    intro pf hpf
+    simp only [emitAfter_fronts, runSteps_fronts, applyBatch_fronts, List.map_map, List.mem_map,
+      Function.comp_def] at hpf
+    obtain ⟨⟨a, b⟩, hab, rfl⟩ := hpf
+    exact (hfront (a, b) hab).2.2
+
 end Viv.Sched
